@@ -2,7 +2,6 @@
 """Regenerates the `fixed` list of known_findings.json from /repo's "fix:" commits."""
 import json, subprocess
 PROP = {
-"Union[float, <constrained int>]":"C13",
 "JSON schema of a discriminated parent":"C17",
 "Literal / Enum deserialization conflates":"C01","uniqueItems treats true and 1":"C01",
 "sort_by_order drops an element":"C16",
